@@ -304,6 +304,8 @@ class Interp:
                 return ("int", c["int"])
             if c.get("ty") == "fn":
                 return ("fnitem", c.get("def"))
+            if c.get("closure"):
+                return ("closure", c["closure"])
             return None
         return self.tag_place(vals, st, op_place(o))
 
@@ -536,11 +538,26 @@ class Interp:
             if "deref" not in dst["proj"][0]:
                 vals.pop(dst["local"], None)
             return st
-        if tag is None:
+        if tag is None or dst["local"] in self._mut_borrowed(fn):
+            # a local whose address is taken mutably (e.g. captured by a closure that updates
+            # it) can change behind the interpreter's back: never trust a tag for it
             vals.pop(dst["local"], None)
         else:
             vals[dst["local"]] = tag
         return st
+
+    def _mut_borrowed(self, fn):
+        mb = getattr(fn, "_mut_borrowed", None)
+        if mb is None:
+            mb = set()
+            for b in fn.blocks:
+                for s in b["stmts"]:
+                    if s["s"] == "assign" and s["rv"]["r"] in ("ref", "rawptr") and s["rv"].get("mut"):
+                        pl = s["rv"]["place"]
+                        if not any("deref" in e for e in pl["proj"]):
+                            mb.add(pl["local"])
+            fn._mut_borrowed = mb
+        return mb
 
     ROOT_CONFLICT = 2     # bit of X: the current Conflict was declared at decision level 0
 
